@@ -21,8 +21,9 @@ Files == <<
   \* a corrected vendor dictionary: the vendor-specific X-B of base redefined (same application, code, name and
   \* vendor, another type), and the same code under a second vendor
   [apps |-> <<P(0, "")>>, avps |-> <<A(0, 5002, "X-B", 10, "Unsigned64"), A(0, 5002, "X-E", 20, "Integer32")>>, cmds |-> <<>>],
-  \* application 1 alone (its child 4 may not be loaded: S6a -> 4 -> 1 must still reach it)
-  [apps |-> <<P(1, "auth")>>, avps |-> <<A(1, 5004, "X-D", 0, "Unsigned32")>>, cmds |-> <<>>],
+  \* application 1 alone (its child 4 may not be loaded: S6a -> 4 -> 1 must still reach it); it gives code 5001, which base
+  \* defines without a vendor, to a vendor-specific AVP of its own: a lookup for any vendor stops at the nearest application
+  [apps |-> <<P(1, "auth")>>, avps |-> <<A(1, 5004, "X-D", 0, "Unsigned32"), A(1, 5001, "X-V", 30, "Unsigned64")>>, cmds |-> <<>>],
   \* a renaming dictionary: base code 5001 / vendor 0 (X-A) and application 4's code 5002 / vendor 20 (X-B) under
   \* new names: the code now resolves to the new definition, the old names keep resolving
   [apps |-> <<P(0, ""), P(4, "auth")>>, avps |-> <<A(0, 5001, "X-R", 0, "Unsigned32"), A(4, 5002, "X-S", 20, "Unsigned32")>>, cmds |-> <<>>],
